@@ -91,7 +91,8 @@ func TestC03InFlightDeduplication(t *testing.T) {
 		"execute", "execute", "execute", "execute", "execute", "execute",
 		"sync", "sync", "sync", "syncCompleted", "syncCompleted", "syncCompleted",
 		"wait", "cancelStream", "cancelStream", "breakStream", "kill",
-		"advance", "advanceSmall", "tick",
+		"advance", "advance", "advanceSmall", "tick",
+		"waitParked", "waitParked", "releaseAuth", "releaseAuth",
 	}
 	p := &profile{
 		name: "C03", ops: ops, minSteps: 5, maxSteps: 60, instances: []string{"", "a"},
